@@ -44,6 +44,7 @@ type Session struct {
 	Await    bool   `json:"await"`               // after a frame that makes the server close, just wait for the close
 	SlowStop bool   `json:"slow_stop,omitempty"` // the sources' Stop() takes a moment (widens the window for concurrent closers)
 	Early    bool   `json:"early,omitempty"`     // no steps: CloseHijackedConnections races with the set-up of the connection
+	IDSet    int    `json:"id_set,omitempty"`    // how operation ids are spelled on the wire (ids.go: idSetNames)
 	Gomax    int    `json:"-"`
 }
 
@@ -72,7 +73,11 @@ func (s Session) String() string {
 	if s.Await {
 		aw = ",await"
 	}
-	return fmt.Sprintf("%s[%s]→%s%s", s.Proto, strings.Join(parts, " "), s.Ending, aw)
+	ids := ""
+	if s.IDSet != 0 {
+		ids = ",ids:" + idSetNames[s.IDSet%len(idSetNames)]
+	}
+	return fmt.Sprintf("%s[%s]→%s%s%s", s.Proto, strings.Join(parts, " "), s.Ending, aw, ids)
 }
 
 // ---- the model's input alphabet as the harness records it -------------------------------------------
@@ -111,6 +116,7 @@ type Observed struct {
 	Dereg     bool           `json:"deregistered"`
 	Anomalies []string       `json:"anomalies,omitempty"` // things the player itself found wrong while playing
 	Ending    string         `json:"ending"`              // await cclose drop sclose
+	IDs       map[int]string `json:"ids,omitempty"`       // the id strings this session sent, by index
 	Inputs    []Input        `json:"-"`
 	Elapsed   time.Duration  `json:"-"`
 	WireTime  time.Duration  `json:"-"`
@@ -289,31 +295,6 @@ func registryLen(api *apifu.API) int {
 
 // ---- wire syntax ------------------------------------------------------------------------------------
 
-func idString(i int) string {
-	switch {
-	case i == 0:
-		return ""
-	case i <= 26:
-		return string(rune('a' + i - 1))
-	}
-	return fmt.Sprintf("op%d", i)
-}
-
-func idIndex(s string) int {
-	if s == "" {
-		return 0
-	}
-	if strings.HasPrefix(s, "op") {
-		if n, err := strconv.Atoi(s[2:]); err == nil && n > 26 {
-			return n
-		}
-	}
-	if len(s) == 1 && s[0] >= 'a' && s[0] <= 'z' {
-		return int(s[0]-'a') + 1
-	}
-	return -1
-}
-
 var malformedSpellings = []string{`{"type":`, `not json`, `[1,2]`, `{"id":5,"type":"connection_init"}`, `"str"`, ``, `{"type":"start","payload":{"query":"{q}"}`, `{"type":7}`}
 
 func unknownSpellings(proto string) []string {
@@ -352,13 +333,12 @@ func docFor(kind string, gen, variant, big int) string {
 }
 
 // frameBytes spells a client frame. gen is the ordinal of this start frame.
-func frameBytes(proto string, st Step, gen int) []byte {
+func frameBytes(proto string, st Step, gen int, ids *idCodec) []byte {
 	startT, stopT := "start", "stop"
 	if proto == "tws" {
 		startT, stopT = "subscribe", "complete"
 	}
-	idj, _ := json.Marshal(idString(st.ID))
-	idPart := `"id":` + string(idj) + `,`
+	idPart := `"id":` + jsonString(ids.str(st.ID), st.Variant/2%2 == 1) + `,`
 	if st.ID == 0 && st.Variant%2 == 1 {
 		idPart = "" // the empty id, spelled by omission
 	}
@@ -391,7 +371,14 @@ func frameBytes(proto string, st Step, gen int) []byte {
 
 var digits = regexp.MustCompile(`(?:nope|subfail|bad|tag:)(\d+)`)
 
-func parseServerFrame(p []byte) WFrame {
+func parseServerFrame(p []byte, ids *idCodec) WFrame {
+	if !validFrame(p) {
+		raw := string(p)
+		if len(raw) > 300 {
+			raw = raw[:300] + "…"
+		}
+		return WFrame{Type: "other", ID: -1, Gen: -1, Raw: "not valid JSON/UTF-8: " + strconv.QuoteToASCII(raw)}
+	}
 	var m struct {
 		ID      string          `json:"id"`
 		Type    string          `json:"type"`
@@ -410,13 +397,20 @@ func parseServerFrame(p []byte) WFrame {
 	case "connection_error":
 		return WFrame{Type: "connerr"}
 	case "complete":
-		return WFrame{Type: "comp", ID: idIndex(m.ID)}
+		f := WFrame{Type: "comp", ID: ids.index(m.ID)}
+		if f.ID < 0 {
+			f.Raw = "complete for an id this session never sent: " + strconv.QuoteToASCII(m.ID)
+		}
+		return f
 	case "data", "next":
 		raw := string(m.Payload)
 		if len(raw) > 160 {
 			raw = raw[:160] + "…"
 		}
-		f := WFrame{Type: "res", ID: idIndex(m.ID), Gen: -1, Raw: raw}
+		f := WFrame{Type: "res", ID: ids.index(m.ID), Gen: -1, Raw: raw}
+		if f.ID < 0 {
+			f.Raw = "result for an id this session never sent: " + strconv.QuoteToASCII(m.ID) + " " + raw
+		}
 		var r struct {
 			Data   map[string]json.RawMessage `json:"data"`
 			Errors []struct {
@@ -452,7 +446,11 @@ func parseServerFrame(p []byte) WFrame {
 		}
 		return f
 	}
-	return WFrame{Type: "other", ID: idIndex(m.ID), Gen: -1, Raw: string(p)}
+	raw := string(p)
+	if len(raw) > 300 {
+		raw = raw[:300] + "…"
+	}
+	return WFrame{Type: "other", ID: ids.index(m.ID), Gen: -1, Raw: raw}
 }
 
 // ---- playing a session ---------------------------------------------------------------------------------
@@ -467,6 +465,7 @@ type player struct {
 	anom     []string
 	deadline time.Duration
 	stats    map[string]int
+	ids      *idCodec
 	barrier  map[int]bool // id → a duplicate subscription start for it is in flight without a barrier
 	probeNo  int
 	dead     bool // a wait timed out already: do not wait at full length again in this session
@@ -598,7 +597,7 @@ func (p *player) sync() {
 
 func (p *player) send(st Step) {
 	gen := p.sp.nextGen
-	b := frameBytes(p.sess.Proto, st, gen)
+	b := frameBytes(p.sess.Proto, st, gen, p.ids)
 	if st.F == "close" {
 		p.conn.WriteControl(websocket.CloseMessage, websocket.FormatCloseMessage(websocket.CloseNormalClosure, "bye"), time.Now().Add(5*time.Second))
 	} else {
@@ -936,7 +935,8 @@ func runSession(w *world, sess Session, deadline time.Duration) *Observed {
 	t0 := time.Now()
 	l := &live{sources: map[int]*source{}, slow: sess.SlowStop}
 	w.cur.Store(l)
-	p := &player{w: w, sess: sess, l: l, sp: newSpec(sess.Proto), deadline: deadline, stats: map[string]int{}, barrier: map[int]bool{}}
+	ids := newIDCodec(sess.IDSet)
+	p := &player{w: w, sess: sess, l: l, ids: ids, sp: newSpec(sess.Proto), deadline: deadline, stats: map[string]int{}, barrier: map[int]bool{}}
 	obs := &Observed{Stops: map[int]int{}, Stats: p.stats}
 	sub := "graphql-ws"
 	if sess.Proto == "tws" {
@@ -977,7 +977,7 @@ func runSession(w *world, sess Session, deadline time.Duration) *Observed {
 				l.mu.Unlock()
 				return
 			}
-			f := parseServerFrame(b)
+			f := parseServerFrame(b, ids)
 			l.mu.Lock()
 			l.wire = append(l.wire, f)
 			l.mu.Unlock()
@@ -1024,6 +1024,7 @@ func runSession(w *world, sess Session, deadline time.Duration) *Observed {
 	obs.Anomalies = p.anom
 	obs.Ending = p.ending
 	obs.Inputs = p.inputs
+	obs.IDs = ids.table()
 	obs.Spec = p.sp
 	obs.Elapsed = time.Since(t0)
 	return obs
